@@ -9,6 +9,7 @@ pub mod fault;
 pub mod monitor;
 pub mod prng;
 pub mod sched;
+pub mod tierb;
 
 use std::sync::atomic::{AtomicBool, AtomicU64, Ordering};
 
